@@ -149,7 +149,18 @@ def run(res, tier, seed, model_ok, search):
                 "closures; the oracle recomputes every blotter view, filter and lookup of the real Blotter from a shadow list of accepted "
                 "placements inside every callback and after every update. non-trivial = at least one order was placed; distinct = scenario index")
     simcheck.run(res, "C15", tier, seed, model_ok, search, n_quick=300, n_thorough=10000)
+    # live mode (the histories of C11): live list and lookups of the real Blotter while responses and order-stream snapshots interleave
+    from props import C11
+    sub = C11.live_findings(tier, seed, search)
+    res.evaluations += sub.evaluations
+    res.distribution["live-histories"] += sub.evaluations
+    for v in sub.violations:
+        if v["signature"] in ("live-order-not-in-live-list", "duplicate-in-live-list", "lookup:id", "live-list-holds-unknown-order", "live-processing-crashed"):
+            res.violations.append(v)
 
 
 def replay(payload):
+    if "scenario" not in (payload.get("replay") or {}):
+        from props import C11
+        return C11.replay(payload)        # a live-domain history
     return simcheck.generic_replay("C15", payload)
